@@ -249,6 +249,15 @@ def relation_check(mon: Monitor, name: str, vals) -> None:
         h_after, _ = call(hash, v) if hashes[i] is not None else (None, None)
         eq_after, _ = call(lambda: bool(v == clone) and bool(clone == v))
         t_clone, _ = call(tok, clone)
+        # ... nor whether it can be pickled: a value that could be shipped before it was looked at can be shipped afterwards, and arrives equal
+        again, e_again = call(lambda: pickle.loads(pickle.dumps(v)))
+        if e_again is not None:
+            mon.fail(f"{name}.readonly-use", {"a": desc(i), "operations": nops, "exc": e_again, "why": "picklable before use, not after"}, key="unpicklable-after-use")
+            continue
+        if name != "GCPGeoBox":
+            mon.check(bool(call(lambda: again == v and v == again)[0]), f"{name}.pickle-after-use", lambda: {"a": desc(i), "clone": repr(again)[:160]}, key="clone-unequal")
+        else:
+            mon.check(gcp_content(again) == gcp_content(v), f"{name}.pickle-after-use", lambda: {"a": desc(i)}, key="clone-content-differs")
         ok = t_after == tokens[i] and (hashes[i] is None or h_after == hashes[i]) and eq_after == eq_before and (not eq_after or name == "GCPGeoBox" or t_clone == t_after)
         mon.check(ok, f"{name}.readonly-use", lambda: {"a": desc(i), "operations": nops, "token_before": tokens[i], "token_after": t_after, "clone_token": t_clone, "hash_same": h_after == hashes[i],
                   "equal_to_clone_before": eq_before, "equal_to_clone_after": eq_after}, key="changed-by-readonly-use", sig=hsig(name, "ro", tokens[i]))
@@ -573,7 +582,11 @@ def travel(mon: Monitor, seed: int) -> None:
         hashable = call(hash, fresh)[1] is None
         for variant, b in (("untouched", b0), ("used", b1)):
             if b is None:
-                mon.skip(f"{name}.travel", "not picklable where it was built (judged by the pickle check)")
+                if variant == "used" and b0 is not None:
+                    # picklable when fresh, not any more after read-only use (D33: the lazily fitted polynomials of a GCP mapping held a local closure)
+                    mon.fail(f"{name}.travel", {"type": name, "value": repr(fresh)[:160], "why": "pickle.dumps raised after the value had been hashed / tokenised / queried, although the untouched value pickles"}, key="unpicklable-after-use", cls=variant)
+                else:
+                    mon.skip(f"{name}.travel", "not picklable where it was built (judged by the pickle check)")
                 continue
             t, e = call(pickle.loads, b)
             desc = {"type": name, "value": repr(fresh)[:160], "variant": variant, "built_with_PYTHONHASHSEED": env["PYTHONHASHSEED"]}
